@@ -141,11 +141,19 @@ func H_C19_reload() {
 	})
 	searched := false
 	verifrt.Go(func() {
+		// a search takes its shard list once and keeps using it while the reload goes on
+		held := ss.getLoaded().shards
+		var before []*rankedShard
+		before = append(before, held...)
 		snap := c19Snapshot(ss, "r")
 		other := c19Snapshot(ss, "s")
 		verifrt.Assert(other == "/idx/s_v16.00000.zoekt=s g0", "a repository that did not change stays loaded throughout")
 		if snap != old && snap != want {
 			verifrt.Assert(false, "a concurrent search sees exactly the old or exactly the new shard set of a repository ("+label+")")
+		}
+		verifrt.WaitUntil(func() bool { return scanned })
+		for i := range before {
+			verifrt.Assert(held[i] == before[i], "the shard list handed to a search is never modified by a later reload")
 		}
 		searched = true
 	})
